@@ -272,19 +272,19 @@ def rule_once(ctx):
     inst = ("call", "Prover::instances", (SELF,))
     one = ("eq", inst, 1)
     proves = [o for o in outs if o[2][1] == "Prover::prove"]
-    seq = [o for o in proves if not o[1]]
-    par = [o for o in proves if o[1]]
+    seq = [o for o in proves if one in (tests_of(o[0]) or [])]
+    par = [o for o in proves if one not in (tests_of(o[0]) or [one])]
     seq_t = tests_of(seq[0][0]) if len(seq) == 1 else None
     par_t = tests_of(par[0][0]) if len(par) == 1 else None
-    ctx.add("ONCE", "one-per-branch", len(seq) == 1 and len(par) == 1 and seq_t == [one] and par_t in ([], [("not", (one,))]), site,
-            "one prove call when instances() == 1 (outside any loop) and one otherwise (inside a loop), nothing else decides whether prove runs: %s / %s" % (seq_t, par_t))
+    ctx.add("ONCE", "one-per-branch", len(proves) == 2 and len(seq) == 1 and len(par) == 1 and seq_t == [one] and par_t in ([], [("not", (one,))]), site,
+            "one prove call when instances() == 1 and one otherwise, nothing else decides whether prove runs: %s / %s" % (seq_t, par_t))
     lv = leaves.leaves(value)
     seq_vals = [v for ts, v in lv if one in ts]
     par_vals = [v for ts, v in lv if one not in ts]
     if len(seq) == 1:
         want = ("upd", ("acc", ("call", "Vec::new", ())), "push", (("call", "Prover::prove", (seq[0][2][2][0], ("at", PROBLEMS))),))
         got = [ftpl.canon_iter(v) for v in seq_vals]
-        ctx.add("ONCE", "sequential", got == [want] and seq[0][2][2][0] == SELF, site,
+        ctx.add("ONCE", "sequential", got == [want] and seq[0][2][2][0] == SELF and seq[0][1] in ((), (PROBLEMS,)), site,
                 "with one instance the result is prove applied to every element of `problems` in order (no filter / skip / take): %s" % [sym.pretty(g)[:160] for g in got])
     if len(par) == 1:
         o = par[0]
